@@ -17,6 +17,8 @@ pub mod pretty;
 pub mod test_framework;
 pub mod tipo;
 pub mod utils;
+#[cfg(feature = "verif-hooks")]
+pub mod verif_hooks;
 pub mod version;
 
 #[derive(Debug, Default, Clone)]
